@@ -89,6 +89,11 @@ ATOMS = [
     ('padded-json-str', lambda: ' [1] ', 'text'),
     ('html-str', lambda: '<!doctype html><html><body>x</body></html>', 'text'), ('html2-str', lambda: '<html><p>y</p></html>', 'text'),
     ('nonascii-str', lambda: u'\xe9中', 'text'),
+    # long text whose non-ASCII characters fall on every alignment of any fixed byte window; bytes that are not UTF-8
+    ('long-e-str', lambda: u'a' + u'\xe9' * 200, 'text'), ('long-e2-str', lambda: u'\xe9' * 200, 'text'),
+    ('long-cjk-str', lambda: u'ab' + u'\u4e2d' * 120, 'text'), ('long-cjk2-str', lambda: u'a' + u'\u4e2d' * 120, 'text'),
+    ('long-html-str', lambda: u'\xe9' * 300 + u'<html><p>late</p></html>', 'text'),
+    ('latin1-bytes', lambda: b'caf\xe9 cr\xe8me', 'bytes'), ('binary-bytes', lambda: bytes(bytearray(range(256))), 'bytes'),
     ('bytes', lambda: b'bytes', 'bytes'), ('json-bytes', lambda: b'{"a":1}', 'bytes'), ('empty-bytes', lambda: b'', 'bytes'),
     ('zero', lambda: 0, 'scalar'), ('float', lambda: 1.5, 'scalar'), ('true', lambda: True, 'scalar'), ('none', lambda: None, 'scalar'),
     ('negint', lambda: -7, 'scalar'),
@@ -258,7 +263,13 @@ class Apps(object):
             See https://example.com/docs?a=1&b=2 and www.example.org for more - 100%.
             """
             return outer.current()
-        self.app = Application([('/basic', ep, render_basic), ('/basicdoc', ep_doc, render_basic), ('/json', ep, render_json), ('/jsondev', ep, render_json_dev),
+        ns = {'outer': outer}
+        exec('def ep_nomodule():\n    return outer.current()\n', ns)
+        ep_nomodule = ns['ep_nomodule']
+        if ep_nomodule.__module__ is not None:
+            raise common.InternalError('exec-defined endpoint has a module name')
+        self.app = Application([('/basicexec', ep_nomodule, render_basic),
+                                ('/basic', ep, render_basic), ('/basicdoc', ep_doc, render_basic), ('/json', ep, render_json), ('/jsondev', ep, render_json_dev),
                                 ('/stream', ep, JSONRender(streaming=True, dev_mode=True)),
                                 ('/jsonp', ep, JSONPRender(dev_mode=True)),
                                 # the documented encoding= argument: the body must be what the declared charset says
@@ -302,11 +313,11 @@ def check_value(acc, A, desc, factory, info, fresh_cache):
     sample_value = factory()
     kind = info['kind']
     vname = desc[0] if kind != 'container' else 'container'
-    for route in ('/basic', '/basic#POST', '/basic#DELETE', '/basicdoc', '/json', '/jsondev', '/stream', '/jsonp', '/jsonl1', '/streaml1', '/jsonpl1'):
+    for route in ('/basic', '/basic#POST', '/basic#DELETE', '/basicdoc', '/basicexec', '/json', '/jsondev', '/stream', '/jsonp', '/jsonl1', '/streaml1', '/jsonpl1'):
         route, _, method = route.partition('#')
         method = method or 'GET'
         combos = [(f, a, cb) for f in FORMATS for a in ACCEPTS for cb in (None,)] if route == '/basic' else \
-                 [(f, a, None) for f in (None, 'html') for a in (None, 'text/html')] if route == '/basicdoc' else \
+                 [(f, a, None) for f in (None, 'html') for a in (None, 'text/html')] if route in ('/basicdoc', '/basicexec') else \
                  [(None, a, cb) for a in (None, 'text/html') for cb in ((None, 'cb9') if route.startswith('/jsonp') else (None,))]
         if method == 'DELETE':
             combos = [(f, a, None) for f in FORMATS for a in (None, 'text/html', 'application/json')]
@@ -336,7 +347,7 @@ def check_value(acc, A, desc, factory, info, fresh_cache):
                 if res.code != 202 or body != b'direct response' or ct != 'text/x-direct':
                     bad('response-altered', 'a Response returned by the endpoint was not passed through')
                 continue
-            if route in ('/basic', '/basicdoc'):
+            if route in ('/basic', '/basicdoc', '/basicexec'):
                 judge_basic(A, bad, res, ct, body, sample_value, info, fmt, accept, factory,
                             fresh_cache if route == '/basic' else None, q, hdrs, desc)
             else:
